@@ -325,7 +325,7 @@ class Printer:
             else:
                 self.emit(0, 'import "%s"%s' % (child.filename, self.semi()))
         for it in p.items:
-            for _ in range(st.blank_between):
+            for _ in range(st.blank_between if self.lines else 0):
                 self.emit(0, "")
             self.item(it, 0, ())
         nl = "\r\n" if st.crlf else "\n"
